@@ -302,6 +302,8 @@ Definition chk (c : case) : bool :=
       pr = o['pure']['ok']
       if not pr['equal'] or sorted(map(str, pr['restored'])) != sorted(map(str, ss[0])):
         chk.violation('oracle', 'to_pure_dict / replace_by_pure_dict is not lossless', {'case': c, 'observed': pr})
+      if pr.get('partial_ok') is False:
+        chk.violation('oracle', 'replace_by_pure_dict with a pure dict naming only some leaves did not replace exactly those leaves (others lost or changed)', {'case': c})
     if 'split_merge' in o:
       sm = o['split_merge']
       if 'err' in sm:
